@@ -227,6 +227,7 @@ def run_one(prop, run_seed, world=None, spec=None, events=None, tier="quick",
   known = []
   executed = 0
   w = None
+  rejected = None
 
   def handle(vs, ev_index):
     """Classifies violations; returns the first unknown one or None."""
@@ -250,8 +251,17 @@ def run_one(prop, run_seed, world=None, spec=None, events=None, tier="quick",
       w = wcls(prop, spec, ctx)
       vs = w.check(ctx, {"kind": "construct", "id": -1})
     except SutError as e:
-      vs = [Violation("exception:%s@construct" % e.exc_type,
-                      {"op": e.op, "text": e.exc_text, "tb": e.tb})]
+      if e.exc_type == "ValueError":
+        # The library rejected the configuration up front. None of the claimed
+        # properties promises that a configuration is accepted (that is C16);
+        # the run is void. The batch driver turns a high rejection rate into a
+        # harness error so that this can never hide a regression silently.
+        ctx.count("rejected_config")
+        rejected = e.exc_text[:300]
+        vs = []
+      else:
+        vs = [Violation("exception:%s@construct" % e.exc_type,
+                        {"op": e.op, "text": e.exc_text, "tb": e.tb})]
     violation = handle(vs, 0)
     if violation is None and w is not None:
       for i, ev in enumerate(events):
@@ -299,6 +309,7 @@ def run_one(prop, run_seed, world=None, spec=None, events=None, tier="quick",
       "stats": dict(ctx.stats),
       "sig": sig,
       "nontrivial": bool(w is not None and w.nontrivial(ctx)),
+      "rejected": rejected,
       "abs_states": sorted(repr(a) for a in ctx.abs_states),
       "digest": ctx.digest(),
       "wall_s": time.time() - t0,
